@@ -158,18 +158,18 @@ Section Norm.
   Lemma s_mul_ok a b : wsort a = true -> wsort b = true -> ok (s_mul a b) (eval_op2 MUL (ev a) (ev b)).
   Proof.
     start2 s_mul. brk; facts; [by_lemma mul_0_l|]. brk; facts; [by_lemma mul_1_l|].
-    destruct (pow2_exp a) as [k|] eqn:Pa.
-    { apply pow2_exp_eq in Pa. destruct Pa as [-> Hk]. unfold ok. cbn [wsort evalw eval_op2]. rewrite Hb.
-      split; [|symmetry; apply mul_pow2; exact Hk].
-      rewrite andb_true_r. apply inw_constw. unfold inw. assert (256 < W) by (unfold W; apply (Z.pow_lt_mono_r 2 8 256); lia). lia. }
     destruct (shl_one b) as [y|] eqn:Sb.
     - apply shl_one_eq in Sb. subst b. cbn [wsort] in Hb. apply andb_true_iff in Hb. destruct Hb as [Hy _].
       unfold ok. cbn [wsort evalw eval_op2]. rewrite Hy, Ha. split; [reflexivity|].
       symmetry. apply mul_shl_1. apply (inw_ev _ Hy).
-    - destruct (shl_one a) as [y|] eqn:Sa; [|dflt].
-      apply shl_one_eq in Sa. subst a. cbn [wsort] in Ha. apply andb_true_iff in Ha. destruct Ha as [Hy _].
-      unfold ok. cbn [wsort evalw eval_op2]. rewrite Hy, Hb. split; [reflexivity|].
-      rewrite mul_comm. symmetry. apply mul_shl_1. apply (inw_ev _ Hy).
+    - destruct (shl_one a) as [y|] eqn:Sa.
+      { apply shl_one_eq in Sa. subst a. cbn [wsort] in Ha. apply andb_true_iff in Ha. destruct Ha as [Hy _].
+        unfold ok. cbn [wsort evalw eval_op2]. rewrite Hy, Hb. split; [reflexivity|].
+        rewrite mul_comm. symmetry. apply mul_shl_1. apply (inw_ev _ Hy). }
+      destruct (pow2_exp a) as [k|] eqn:Pa; [|dflt].
+      apply pow2_exp_eq in Pa. destruct Pa as [-> Hk]. unfold ok. cbn [wsort evalw eval_op2]. rewrite Hb.
+      split; [|symmetry; apply mul_pow2; exact Hk].
+      rewrite andb_true_r. apply inw_constw. unfold inw. assert (256 < W) by (unfold W; apply (Z.pow_lt_mono_r 2 8 256); lia). lia.
   Qed.
 
   Lemma s_sub_ok a b : wsort a = true -> wsort b = true -> ok (s_sub a b) (eval_op2 SUB (ev a) (ev b)).
@@ -681,14 +681,82 @@ Section Norm.
     - rewrite !mstore_other by lia. apply E. lia.
   Qed.
 
+  Lemma mstore_mstore_comm m a v a' v' x : ~ (a <= x < a + 32 /\ a' <= x < a' + 32) ->
+    mstore (mstore m a v) a' v' x = mstore (mstore m a' v') a v x.
+  Proof.
+    intros D. unfold mstore.
+    destruct ((a' <=? x) && (x <? a' + 32)) eqn:E1; destruct ((a <=? x) && (x <? a + 32)) eqn:E2; try reflexivity.
+    exfalso. apply D. lia.
+  Qed.
+  Lemma mstore8_mstore_comm m a v a' v' x : ~ (a <= x < a + 1 /\ a' <= x < a' + 32) ->
+    mstore (mstore8 m a v) a' v' x = mstore8 (mstore m a' v') a v x.
+  Proof.
+    intros D. unfold mstore, mstore8.
+    destruct ((a' <=? x) && (x <? a' + 32)) eqn:E1; destruct (x =? a) eqn:E2; try reflexivity.
+    exfalso. apply D. lia.
+  Qed.
+  Lemma mstore_mstore8_comm m a v a' v' x : ~ (a <= x < a + 32 /\ a' <= x < a' + 1) ->
+    mstore8 (mstore m a v) a' v' x = mstore (mstore8 m a' v') a v x.
+  Proof.
+    intros D. unfold mstore, mstore8.
+    destruct ((a <=? x) && (x <? a + 32)) eqn:E1; destruct (x =? a') eqn:E2; try reflexivity.
+    exfalso. apply D. lia.
+  Qed.
+  Lemma mstore8_mstore8_comm m a v a' v' x : ~ (a <= x < a + 1 /\ a' <= x < a' + 1) ->
+    mstore8 (mstore8 m a v) a' v' x = mstore8 (mstore8 m a' v') a v x.
+  Proof.
+    intros D. unfold mstore8.
+    destruct (x =? a) eqn:E1; destruct (x =? a') eqn:E2; try reflexivity.
+    exfalso. apply D. lia.
+  Qed.
+
+  Definition store_w (w : bool) (m : memory) (a v : Z) : memory := if w then mstore m a v else mstore8 m a v.
+
+  Lemma ins_store_sound w a v m : msort m = true -> wsort a = true -> wsort v = true ->
+    msort (ins_store w a v m) = true /\
+    (forall x, evalm r (ins_store w a v m) x = store_w w (evalm r m) (ev a) (ev v) x).
+  Proof.
+    intros Hm Ha Hv.
+    assert (T : forall m0, msort m0 = true ->
+                msort (if w then MStore m0 a v else MStore8 m0 a v) = true /\
+                (forall x, evalm r (if w then MStore m0 a v else MStore8 m0 a v) x = store_w w (evalm r m0) (ev a) (ev v) x)).
+    { intros m0 H0. destruct w; cbn [msort evalm store_w]; rewrite H0, Ha, Hv; split; reflexivity. }
+    induction m as [z|n0|k|k|k a1 _|o a1 _|o a1 _ a2 _|o a1 _ a2 _ a3 _|m0 _ a1 _|s0 _ k _|m0 _ a1 _ a2 _
+                   | |m0 IH a1 _ v1 _|m0 IH a1 _ v1 _| |s0 _ k _ v1 _]; try discriminate Hm.
+    - cbn [ins_store]. apply T. reflexivity.
+    - pose proof Hm as Hm'. cbn [msort] in Hm. apply andb_true_iff in Hm. destruct Hm as [Hm Hv1].
+      apply andb_true_iff in Hm. destruct Hm as [Hm Ha1]. destruct (IH Hm) as [IS IE].
+      cbn [ins_store]. destruct (disj (if w then 32 else 1) a 32 a1 && addr_lt a a1) eqn:D; [|apply T; exact Hm'].
+      apply andb_true_iff in D. destruct D as [D _].
+      split; [cbn [msort]; rewrite IS, Ha1, Hv1; reflexivity|].
+      intros x. cbn [evalm]. pose proof (disj_sound _ _ _ _ D Ha Ha1 x) as DS.
+      transitivity (mstore (store_w w (evalm r m0) (ev a) (ev v)) (ev a1) (ev v1) x).
+      { unfold mstore. rewrite IE. reflexivity. }
+      destruct w; cbn [store_w].
+      + apply mstore_mstore_comm. exact DS.
+      + apply mstore8_mstore_comm. exact DS.
+    - pose proof Hm as Hm'. cbn [msort] in Hm. apply andb_true_iff in Hm. destruct Hm as [Hm Hv1].
+      apply andb_true_iff in Hm. destruct Hm as [Hm Ha1]. destruct (IH Hm) as [IS IE].
+      cbn [ins_store]. destruct (disj (if w then 32 else 1) a 1 a1 && addr_lt a a1) eqn:D; [|apply T; exact Hm'].
+      apply andb_true_iff in D. destruct D as [D _].
+      split; [cbn [msort]; rewrite IS, Ha1, Hv1; reflexivity|].
+      intros x. cbn [evalm]. pose proof (disj_sound _ _ _ _ D Ha Ha1 x) as DS.
+      transitivity (mstore8 (store_w w (evalm r m0) (ev a) (ev v)) (ev a1) (ev v1) x).
+      { unfold mstore8. rewrite IE. reflexivity. }
+      destruct w; cbn [store_w].
+      + apply mstore_mstore8_comm. exact DS.
+      + apply mstore8_mstore8_comm. exact DS.
+  Qed.
+
   Lemma s_mstore_ok m a v : msort m = true -> wsort a = true -> wsort v = true ->
     msort (s_mstore m a v) = true /\
     (forall x, evalm r (s_mstore m a v) x = mstore (evalm r m) (ev a) (ev v) x).
   Proof.
     intros Hm Ha Hv. destruct (drop_same_sound a m Hm Ha) as [DS _].
-    assert (D : msort (MStore (drop_same a m) a v) = true /\
-                (forall x, evalm r (MStore (drop_same a m) a v) x = mstore (evalm r m) (ev a) (ev v) x)).
-    { cbn [msort evalm]. rewrite DS, Ha, Hv. split; [reflexivity|]. intros x. apply mstore_drop_same; assumption. }
+    assert (D : msort (ins_store true a v (drop_same a m)) = true /\
+                (forall x, evalm r (ins_store true a v (drop_same a m)) x = mstore (evalm r m) (ev a) (ev v) x)).
+    { destruct (ins_store_sound true a v _ DS Ha Hv) as [S E]. split; [exact S|]. intros x. rewrite E.
+      cbn [store_w]. apply mstore_drop_same; assumption. }
     destruct v as [z|n0|k|k|k a1|o a1|o a1 a2|o a1 a2 a3|m0 a1|s0 k|m0 a1 a2| |m0 a1 v0|m0 a1 v0| |s0 k v0];
       try exact D.
     cbn [s_mstore]. destruct (term_eqb a a1 && term_eqb m0 (relevant 32 a m)) eqn:Q; [|exact D].
@@ -777,8 +845,8 @@ Section Norm.
       cbn [evalm]. unfold mstore. rewrite Em. reflexivity.
     - (* mstore8 *) split3. sorts_in Hs. destruct (proj1 (proj2 IHm) Hs) as [Sm Em]. destruct (proj1 IHa Hs1) as [Sa Ea].
       destruct (proj1 IHv Hs0) as [Sv Ev].
-      split; [cbn [msort]; rewrite Sm, Sa, Sv; reflexivity|]. intros x. cbn [evalm]. rewrite Ea, Ev.
-      unfold mstore8. rewrite Em. reflexivity.
+      destruct (ins_store_sound false _ _ _ Sm Sa Sv) as [S' E']. split; [exact S'|]. intros x. rewrite E', Ea, Ev.
+      cbn [store_w evalm]. unfold mstore8. rewrite Em. reflexivity.
     - split3. split; [reflexivity|intros; reflexivity].
     - (* sstore *) split3. sorts_in Hs. destruct (proj2 (proj2 IHs) Hs) as [Ss Es]. destruct (proj1 IHk Hs1) as [Sk Ek].
       destruct (proj1 IHv Hs0) as [Sv Ev].
